@@ -100,6 +100,7 @@ def _ops():
     q("Array(m)*Array(cm) ndarray", lambda db: (Array(np.array([1.0, 2.0]), "m") * Array(np.array([3.0, 4.0]), "cm")).GetQuantity(), D(("length", "m", 2)))
     q("Array(m)/Array(s) list", lambda db: (Array([1.0, 2.0], "m") / Array([3.0, 4.0], "s")).GetQuantity(), D(("length", "m", 1), ("time", "s", -1)))
     q("2.0/Scalar(s)", lambda db: (2.0 / _scal(4.0, "s")).GetQuantity(), D(("time", "s", -1)))
+    q("LT2.MakeCopy(plain dict, the same factors in the other order)", lambda db: ObtainQuantity([("m", 2), ("s", -1)], ("length", "time")).MakeCopy({"time": ["s", -1], "length": ["m", 2]}), D(("time", "s", -1), ("length", "m", 2)))
     q("LT2.MakeCopy(other map)", lambda db: ObtainQuantity([("m", 2), ("s", -1)], ("length", "time")).MakeCopy(OrderedDict([("length", ["cm", 2]), ("time", ["s", -1])])), D(("length", "cm", 2), ("time", "s", -1)))
     # captions on KNOWN units (the caption is part of the denoted value)
     q("ObtainQuantity('m','length','label')", lambda db: ObtainQuantity("m", "length", "label"), S("length", "m", "label"))
